@@ -456,3 +456,26 @@ Section Rows.
       destruct (rss_new_spec rng seed_rng w) as [Hw _]. rewrite Hw. reflexivity.
   Qed.
 End Rows.
+
+(* ------------------------------------------------------------------ *)
+(* the caller's sig_kwargs dictionary                                   *)
+Lemma K_sigkw : (forall m, sigkw_mean m = m) /\ sigkw_nupdate = 1 /\ sigkw_nother = 0 /\ sigkw_order = true
+  /\ (forall m, bkgkw_mean m = m) /\ bkgkw_nother = 0.
+Proof. repeat split; reflexivity. Qed.
+
+(* the mean handed to the signal generator is the mean_n_sig of THIS call,
+   whatever the dictionary was used with before *)
+Lemma sig_mean_used_spec kw m :
+  sig_mean_used kw m = if m =? 0 then None else Some m.
+Proof.
+  unfold sig_mean_used, sig_kwargs_after. rewrite K_ana_sig_none.
+  destruct (m =? 0); [reflexivity|].
+  destruct K_sigkw as [H1 [H2 [H3 [H4 _]]]]. rewrite H1, H2, H3, H4. reflexivity.
+Qed.
+
+Theorem sig_means_used_spec means : forall kw,
+  sig_means_used kw means = map (fun m => if m =? 0 then None else Some m) means.
+Proof.
+  induction means as [|m rest IH]; intros kw; [reflexivity|].
+  cbn [sig_means_used map]. rewrite sig_mean_used_spec, IH. reflexivity.
+Qed.
